@@ -290,6 +290,7 @@ package dmap
 //@ func (dm *DMap) sortVersions(versions []*version) []*version
 //@   props C06
 //@   flag termination
+//@   requires #whole_slice: off(versions) == 0
 //@   requires #elems: forall k int :: 0 <= k && k < len(versions) ==> versions[k] != nil && versions[k].entry != nil
 //@   ensures #same_slice: result == versions
 //@   ensures #elems_kept: forall k int :: 0 <= k && k < len(result) ==> result[k] != nil && result[k].entry != nil
